@@ -57,7 +57,8 @@ class CellsBoundFunction(BoundFunction):
         if closure is not None:  # pytest fails without this.
             closure = create_closure(self.owner.interface)
 
-        ns = {k: v._impl.call if isinstance(v, Cells) else v
+        ns = {k: v._impl.call
+              if isinstance(v, Cells) and v._is_valid() else v
               for k, v in self.owner.namespace.interfaces.items()}
 
         self.altfunc = FunctionType(
